@@ -268,6 +268,8 @@ const smtPrelude = `(set-option :produce-models true)
 (declare-fun str.empty () Str)
 (define-fun hint ((b Bool)) Bool b)
 (define-fun hintg ((b Bool)) Bool true)
+(define-fun hinte ((b Bool)) Bool b)
+(define-fun hintf ((b Bool)) Bool false)
 (assert (= (strlen str.empty) 0))
 (assert (forall ((s Str)) (! (and (>= (strlen s) 0) (<= (strlen s) 72057594037927936) (=> (= (strlen s) 0) (= s str.empty))) :pattern ((strlen s)))))
 `
